@@ -69,6 +69,13 @@ def make_exc(kind: str, tag: Any) -> BaseException:
         return BaseCustom(f"injected {tag}")
     if kind == "LookupError":
         return LookupError(f"injected {tag}")
+    if kind == "StartError":
+        # what a component sees when it starts an inner component tree itself and that one fails
+        from asphalt.core import Component, ComponentStartError
+
+        inner = ComponentStartError("creating", f"inner.of.{tag}", Component)
+        inner.__cause__ = RuntimeError(f"injected inner failure {tag}")
+        return inner
     raise ValueError(kind)
 
 
